@@ -32,6 +32,8 @@ type EquCase struct {
 	// Perm: the order in which the definitions are written at the top (nil = dependency order); any other order
 	// makes some definition refer to a name that is defined further down
 	Perm []int `json:"perm,omitempty"`
+	// Label: a label defined in front of the statements (some definition is an alias of it)
+	Label string `json:"label,omitempty"`
 }
 
 func (c *EquCase) defsText() string {
@@ -53,6 +55,7 @@ func (c *EquCase) abstracted() string {
 	sb.WriteString(sem.Header(c.Mode))
 	if !c.Late {
 		sb.WriteString(c.defsText())
+		sb.WriteString(c.labelLine())
 		for _, s := range c.Stmts {
 			sb.WriteString("\t" + s + "\n")
 		}
@@ -70,11 +73,19 @@ func (c *EquCase) abstracted() string {
 			}
 		}
 	}
+	sb.WriteString(c.labelLine())
 	for _, s := range c.Stmts {
 		need(s)
 		sb.WriteString("\t" + s + "\n")
 	}
 	return sb.String()
+}
+
+func (c *EquCase) labelLine() string {
+	if c.Label == "" {
+		return ""
+	}
+	return "\tDB 1,2,3\n" + c.Label + ":\n"
 }
 
 func containsToken(text, name string) bool {
@@ -93,6 +104,7 @@ func (c *EquCase) inline(text string) string {
 func (c *EquCase) inlined() string {
 	var sb strings.Builder
 	sb.WriteString(sem.Header(c.Mode))
+	sb.WriteString(c.labelLine())
 	for _, s := range c.Stmts {
 		sb.WriteString("\t" + c.inline(s) + "\n")
 	}
@@ -187,7 +199,7 @@ var equSites = []equSite{
 
 var propC11 = &Prop[EquCase]{
 	ID:   "C11",
-	Rule: "1..5 EQU definitions forming chains up to depth 4 (literal bodies around the imm8/imm16/disp8 boundaries, bodies over earlier names with + - * / %, names from the adversarial identifier family) used in 1..6 statements at every kind of site (8/16/32-bit immediates, shift counts, INT, ports, memory-immediate, 16/32-bit displacements, absolute address, DB/DW/DD lists, RESB, PUSH), as a bare name or inside a larger expression; one case in four also defines a name that stands for a register and uses it as an operand and inside memory operands; definitions at the top (in dependency order or permuted, so that bodies name constants defined further down) or just before first use; oracle: byte-identical output of the program with names and the program with every name replaced textually by its parenthesised definition, same acceptance, and the definitions alone emit nothing; non-trivial = a chain of depth >= 2 or a value on an encoding boundary; distinct by source text",
+	Rule: "1..5 EQU definitions forming chains up to depth 4 (literal bodies around the imm8/imm16/disp8 boundaries, bodies over earlier names with + - * / %, names from the adversarial identifier family) used in 1..6 statements at every kind of site (8/16/32-bit immediates, shift counts, INT, ports, memory-immediate, 16/32-bit displacements, absolute address, DB/DW/DD lists, RESB, PUSH), as a bare name or inside a larger expression; one case in four also defines a name that stands for a register and uses it as an operand and inside memory operands; one in five a name that stands for a label; definitions at the top (in dependency order or permuted, so that bodies name constants defined further down) or just before first use; oracle: byte-identical output of the program with names and the program with every name replaced textually by its parenthesised definition, same acceptance, and the definitions alone emit nothing; non-trivial = a chain of depth >= 2 or a value on an encoding boundary; distinct by source text",
 	Gen: func(t *rapid.T) EquCase {
 		c := EquCase{Mode: rapid.SampledFrom([]int{0, 16, 32}).Draw(t, "mode"), Late: rapid.Bool().Draw(t, "late")}
 		nd := rapid.IntRange(1, 5).Draw(t, "ndefs")
@@ -260,6 +272,20 @@ var propC11 = &Prop[EquCase]{
 				}
 			}
 		}
+		// one case in five: a name that stands for a label (mixed-case label names), used as an immediate, in data
+		// and as a branch target
+		if rapid.IntRange(0, 4).Draw(t, "labalias") == 0 {
+			lab := rapid.SampledFrom([]string{"qmsg", "qLoop", "qgdtTable", "q_fin", "QTOP", "qaX"}).Draw(t, "labname")
+			nm := rapid.SampledFrom([]string{"QTEXT", "qagain", "qTbl", "q_al"}).Draw(t, "labalname")
+			if !taken[nm] && !taken[lab] {
+				taken[nm], taken[lab] = true, true
+				c.Label = lab
+				c.Defs = append(c.Defs, EquDef{Name: nm, Body: lab, Dep: 1})
+				for k := rapid.IntRange(1, 3).Draw(t, "nlabuses"); k > 0; k-- {
+					regUses = append(regUses, fmt.Sprintf(rapid.SampledFrom([]string{"MOV AX,%s", "DW %s", "JMP %s", "MOV SI,%s", "CALL %s", "JE %s"}).Draw(t, "labuse"), nm))
+				}
+			}
+		}
 		if !c.Late && len(c.Defs) >= 2 && rapid.IntRange(0, 2).Draw(t, "permute") == 0 {
 			idx := make([]int, len(c.Defs))
 			for i := range idx {
@@ -269,7 +295,7 @@ var propC11 = &Prop[EquCase]{
 		}
 		var numeric []EquDef
 		for _, d := range c.Defs {
-			if sem.RegBits(d.Body) == 0 {
+			if sem.RegBits(d.Body) == 0 && d.Body != c.Label {
 				numeric = append(numeric, d)
 			}
 		}
